@@ -27,7 +27,8 @@
 (***************************************************************************)
 EXTENDS Integers, Sequences, FiniteSets
 
-CONSTANT SDev          \* deviations of a hypothetical implementation (TLC must reject each)
+CONSTANT SDev          \* deviations of a hypothetical implementation (TLC must reject each), and the environment assumption
+                       \* "EnvFullWrites" (the scripted transports of the harness never report a write of 0 bytes)
 IDLE == 0  SENDING == 1  WAITING == 2  PROCESSING == 4  COMPLETE == 6
 States == {IDLE, SENDING, WAITING, PROCESSING, COMPLETE}
 Pcs == {"idle", "tx", "rx", "att", "fin", "raised"}
@@ -55,9 +56,10 @@ Sets(rtu, c) ==
 (* steps that assign nothing *)
 Eps(rtu, c) ==
   (IF c.pc = "tx" THEN {Cfg("att", c.st),                              \* the transport raised while sending (caught)
-                        Cfg("raised", c.st),                           \* not connected: ConnectionException leaves execute()
-                        Cfg("rx", c.st),                               \* nothing written (size 0): no WAITING
-                        Cfg("fin", c.st)}                              \* broadcast, nothing written
+                        Cfg("raised", c.st)}                           \* not connected: ConnectionException leaves execute()
+                       \cup (IF "EnvFullWrites" \in SDev THEN {}      \* (environment: a write that returns writes everything)
+                             ELSE {Cfg("rx", c.st),                    \* nothing written (size 0): no WAITING
+                                   Cfg("fin", c.st)})                  \* broadcast, nothing written
    ELSE {})
   \cup (IF c.pc = "rx" THEN {Cfg("att", c.st)} ELSE {})                \* the transport raised / already PROCESSING / wrong echo
   \cup (IF c.pc = "att" THEN {Cfg("raised", c.st)} ELSE {})            \* decoding the reply raised something else
